@@ -71,6 +71,12 @@ def _np3():
     return np.int64(3)
 
 
+def _np127():
+    import numpy as np
+
+    return np.int8(127)  # the largest value of its fixed-width type: idx + 1 wraps around in that type
+
+
 EF, EB = frozenset({"f"}), b"y"  # hashable IDs that are neither numbers nor strings
 NAN = float("nan")  # one shared object: found again by identity
 
@@ -90,7 +96,7 @@ def _repickle(H):
 
 
 NAMESPACE = {"become": _become, "repickle": _repickle, "shuffle": _shuffle, "aliased": _aliased, "TA": TA, "SB": SB, "FC": FC, "ET": ET, "ES": ES, "NP3": _np3(),
-             "EF": EF, "EB": EB, "NAN": NAN}
+             "EF": EF, "EB": EB, "NAN": NAN, "NP127": _np127(), "BIGF": 1e16}
 
 
 def namespace():
@@ -262,6 +268,9 @@ def hypergraph_exotic():
     A("H.add_edge([FC], idx=3)")
     A("H.add_edge([TA, SB], idx=EF)")
     A("H.add_edge([SB], idx=EB)")
+    A("H.add_edge([TA, FC], idx=NP127)")  # integer IDs at the edge of their numeric type
+    A("H.add_edge([SB, FC], idx=BIGF)")
+    A("H.add_edges_from({NP127: [TA], BIGF: [SB]})")
     A("H.add_edges_from({6: np.array([1, 2]), 7: np.array(['b', 'c'])})")  # members from arrays: numpy scalars as labels
     # falsy labels and IDs: node 0 and '', edge IDs '' and () (anything testing truth instead of presence goes wrong)
     A("H.add_node(0)")
@@ -330,6 +339,8 @@ def dihypergraph_exotic():
     A("H.add_edge(([FC], [TA]), idx=NP3)")
     A("H.add_edge(([FC], [SB]), idx=3)")
     A("H.add_edge(([TA], [SB]), idx=EF)")
+    A("H.add_edge(([TA], [FC]), idx=NP127)")
+    A("H.add_edge(([SB], [FC]), idx=BIGF)")
     A("H.add_node(0)")
     A("H.add_node('')")
     A("H.add_edge(([0], [SB, '']))")
@@ -380,6 +391,8 @@ def simplicial_exotic():
     A("H.add_simplex([TA, FC], idx=NP3)")
     A("H.add_simplex([FC, SB], idx=3)")
     A("H.add_simplex([TA, SB], idx=EF)")
+    A("H.add_simplex([TA, FC], idx=NP127)")
+    A("H.add_simplex([SB, FC, TA], idx=BIGF)")
     A("H.add_node(0)")
     A("H.add_node('')")
     A("H.add_simplex([0, SB])")
